@@ -13,7 +13,7 @@ Model column: `Model/NodeCleanup.lean` run on the op.  Verdict column: the *spec
     `expired-keyshare`, `expired-manifest`, `expired-plan`, `announcement-not-withdrawn`);
   * an `audit` line at the instant of a cleanup is judged by `judgeAudit` (`audit-unhealthy`);
   * every `drain` line is judged by `judgeDrain` against the reports the abstract node `C05Spec.N`
-    says are due (`notified-twice`, `not-notified`, `notified-live`).
+    says are due (`notified-twice`, `not-notified`, `notified-early`).
 
 The pending-fetch table is C24's: the driver keeps the minimum needed to know which `probe`s and
 `ingest`s of the model a scheduler pass amounts to; which entries are dispatched is taken from the
